@@ -28,7 +28,6 @@ GENS, CNT = "metaepoch_generations", "epoch_counter"
 prev = PREV.format(c=CNT, g=GENS)
 refine(D + "cma_deme.CMADeme.run_metaepoch", A + "run_metaepoch",
        locals={GENS: "list[list[ref:Individual]]", "genomes": "list[g]", "values": "list[fl]"},
-       requires=[cl("deme_invariant", "CmaDeme(self)")],
        modifies=OWN_FRAME + USER_PROBLEM_FRAME,
        ghost_after={"stop@0": ["setg(self, '$engine_stop', _call_result)"], "stop@1": ["setg(self, '$engine_stop', _call_result)"]},
        loops={0: dict(invariant=deme_loop_invariants(GENS, CNT, "self.generations") + [
